@@ -649,6 +649,8 @@ class FunctionParser(BaseParser):
                 continue
             if field.is_required(options=context.options):
                 context.handle_error(exc.AbsenceError(item=field.attname))
+                # reported here (when errors are collected): the keyword pass must not report it again
+                parsed_keys.append(field.attname)
                 continue
             default = field.get_default(context.options)
             if not unprovided(default):
